@@ -15,7 +15,7 @@ import (
 	"strings"
 	"testing"
 
-	"github.com/RoaringBitmap/roaring"
+	"github.com/RoaringBitmap/roaring/v2"
 	"github.com/grafana/regexp"
 
 	"github.com/sourcegraph/zoekt"
